@@ -856,10 +856,13 @@ End Layer3.
 
 (* what TI and the loop clauses read, for steps that do not touch the transaction table at all *)
 Definition tiv (c : connp) :=
-  (c_in_state c, c_out_state c, c_in_tx c, c_out_tx c, hook_in c, hook_out c, c_txs c, c_txs_shifted c, c_out_status c).
+  (c_in_state c, c_out_state c, c_in_tx c, c_out_tx c, hook_in c, hook_out c, c_txs c, c_txs_shifted c, c_out_status c,
+   cur_core (c_out c)).
+Lemma tiv_cur a b : tiv a = tiv b -> cur_core (c_out a) = cur_core (c_out b).
+Proof. unfold tiv. intros H. congruence. Qed.
 Lemma TI_tiv c c' : tiv c' = tiv c -> TI c -> TI c'.
 Proof.
-  unfold tiv. intros H [Ti To]. injection H as H1 H2 H3 H4 H5 H6 H7 H8 H9. split.
+  unfold tiv. intros H [Ti To]. injection H as H1 H2 H3 H4 H5 H6 H7 H8 H9 H10. split.
   - eapply TIin_frame; [exact Ti|exact H1|exact H3|left; exact H5|apply txs_rel_of_eq; [apply tx_lein_pre|exact H7|exact H8]].
   - eapply TIout_frame; [exact To|exact H2|exact H4|left; exact H6|apply txs_rel_of_eq; [apply tx_leout_pre|exact H7|exact H8]].
 Qed.
@@ -873,16 +876,29 @@ Definition gap_ok (gap : bool) (c : connp) : Prop := gap = true -> armed (c_in c
 Definition gap_head (gap : bool) (c : connp) : Prop :=
   gap = true -> (c_in_state c = REQ_BODY_IDENTITY \/ c_in_state c = REQ_HEADERS) -> k_read (c_in c) = O.
 
-(* the invariant of htp_connp_req_data's loop that also holds when a pass leaves the loop with a "need data" code;
-   os = out_status when the call started *)
-Record RE (gap : bool) (os : Z) (c : connp) : Prop := mkRE {
+(* the invariant of htp_connp_req_data's loop that also holds when a pass leaves the loop with a "need data" code *)
+(* what the request side leaves alone in the response direction; os = (out_status, out_state, response receiver hook)
+   when the call started: out_status only ever becomes TUNNEL, out_state is kept, the hook is kept (or cleared) *)
+Definition ocore := (option bytes * nat * nat * nat * option N * option bytes * option bytes)%type.
+Definition octx := (Z * res_state * option nat * ocore)%type.
+Definition os_keeps (os : octx) (c : connp) : Prop :=
+  (c_out_status c = fst (fst (fst os)) \/ c_out_status c = c_HTP_STREAM_TUNNEL) /\ c_out_state c = snd (fst (fst os)) /\
+  hk_le (snd (fst os)) (hook_out c) /\ cur_core (c_out c) = snd os.
+Lemma os_keeps_step os c c' :
+  os_keeps os c -> c_out_status c' = c_out_status c -> c_out_state c' = c_out_state c -> hk_le (hook_out c) (hook_out c') ->
+  cur_core (c_out c') = cur_core (c_out c) -> os_keeps os c'.
+Proof.
+  intros (A & B & C & D) E1 E2 E3 E4. unfold os_keeps. rewrite E1, E2, E4. split; [exact A|split; [exact B|split; [eapply hk_le_trans; eassumption|exact D]]].
+Qed.
+
+Record RE (gap : bool) (os : octx) (c : connp) : Prop := mkRE {
   re_fault : c_fault c = false;
   re_pre : rq_pre c;
   re_readable : gap = false -> rq_readable c;
   re_ti : TI c;
   re_intx : intx_ok c;
   re_gap : gap_ok gap c;
-  re_os : c_out_status c = os \/ c_out_status c = c_HTP_STREAM_TUNNEL
+  re_os : os_keeps os c
 }.
 
 Lemma rq_core_fields a b : rq_core_st a = rq_core_st b ->
@@ -900,7 +916,7 @@ Proof.
   - eapply TI_fr; eassumption.
   - unfold intx_ok in *. rewrite E5, (frR_in_tx _ _ _ R). exact A5.
   - unfold gap_ok, armed in *. intros G U. rewrite E3. apply (A6 G). destruct R as (_ & _ & _ & [H|H] & _); unfold hook_in in H; congruence.
-  - destruct R as (S & _). rewrite (skel_out_status _ _ S). exact A7.
+  - destruct R as (S & _ & _ & _ & Ho & _). apply (os_keeps_step os c c' A7); [apply skel_out_status; exact S|apply skel_out_state; exact S|exact Ho|apply skel_cur_out; exact S].
 Qed.
 
 Lemma RE_sendok gap os c : RE gap os c -> sendok_in c.
@@ -918,13 +934,13 @@ Qed.
 Lemma RE_byte os c c' :
   RE false os c -> tiv c' = tiv c -> c_fault c' = false -> rq_pre c' -> rq_readable c' -> RE false os c'.
 Proof.
-  intros [A1 A2 A3 A4 A5 A6 A7] T F P Rd. pose proof T as T'. unfold tiv in T'. injection T' as H1 H2 H3 H4 H5 H6 H7 H8 H9.
+  intros [A1 A2 A3 A4 A5 A6 A7] T F P Rd. pose proof T as T'. unfold tiv in T'. injection T' as H1 H2 H3 H4 H5 H6 H7 H8 H9 H10.
   constructor; try assumption.
   - intros _. exact Rd.
   - eapply TI_tiv; eassumption.
   - unfold intx_ok. rewrite H1, H3. exact A5.
   - intros G. discriminate.
-  - rewrite H9. exact A7.
+  - apply (os_keeps_step os c c' A7); [exact H9|exact H2|left; exact H6|exact (tiv_cur _ _ T)].
 Qed.
 
 (* ---- the byte macros do not fault on a well-formed, readable cursor ---- *)
@@ -1016,19 +1032,21 @@ Lemma CW_rd c : CW c -> rq_readable c. Proof. intros [_ R]. exact R. Qed.
 (* the frame TI and the loop clauses need *)
 Definition gfr (c c' : connp) : Prop :=
   c_in_state c' = c_in_state c /\ c_out_state c' = c_out_state c /\ ptrs c' = ptrs c /\
-  hk_le (hook_in c) (hook_in c') /\ hk_le (hook_out c) (hook_out c') /\ txs_rel tx_le c c' /\ c_out_status c' = c_out_status c.
+  hk_le (hook_in c) (hook_in c') /\ hk_le (hook_out c) (hook_out c') /\ txs_rel tx_le c c' /\ c_out_status c' = c_out_status c /\
+  cur_core (c_out c') = cur_core (c_out c).
 Lemma gfr_refl c : gfr c c.
 Proof. unfold gfr. repeat split; try apply hk_le_refl. apply txs_rel_refl. apply tx_le_pre. Qed.
 Lemma gfr_trans a b c : gfr a b -> gfr b c -> gfr a c.
 Proof.
-  intros (A1 & A2 & A3 & A4 & A5 & A6 & A7) (B1 & B2 & B3 & B4 & B5 & B6 & B7). unfold gfr. repeat split; try congruence.
+  intros (A1 & A2 & A3 & A4 & A5 & A6 & A7 & A8) (B1 & B2 & B3 & B4 & B5 & B6 & B7 & B8). unfold gfr. repeat split; try congruence.
   - eapply hk_le_trans; eassumption.
   - eapply hk_le_trans; eassumption.
   - eapply txs_rel_trans; [apply tx_le_pre|eassumption|eassumption].
 Qed.
 Lemma nf_gfr a b : nf a b -> gfr a b.
 Proof.
-  intros [_ T]. unfold tiv in T. injection T as H1 H2 H3 H4 H5 H6 H7 H8 H9. unfold gfr, ptrs, hk_le. repeat split; try congruence; try (left; assumption).
+  intros [_ T]. pose proof (tiv_cur _ _ T) as Hc. unfold tiv in T. injection T as H1 H2 H3 H4 H5 H6 H7 H8 H9 H10.
+  unfold gfr, ptrs, hk_le. repeat split; try congruence; try (left; assumption).
   apply txs_rel_of_eq; [apply tx_le_pre|assumption|assumption].
 Qed.
 Lemma fr_gfr a b : fr a b -> gfr a b.
@@ -1037,6 +1055,7 @@ Proof.
   - apply skel_in_state. exact S.
   - apply skel_out_state. exact S.
   - apply skel_out_status. exact S.
+  - apply skel_cur_out. exact S.
 Qed.
 Lemma gfr_live a b i : gfr a b -> live a i -> live b i.
 Proof. intros (_ & _ & _ & _ & _ & X & _). eapply txs_rel_live. exact X. Qed.
@@ -1045,7 +1064,7 @@ Proof. intros (_ & _ & P & _). unfold ptrs in P. congruence. Qed.
 
 Lemma TI_gfr c c' : TI c -> gfr c c' -> TI c'.
 Proof.
-  intros [Ti To] (A1 & A2 & A3 & A4 & A5 & A6 & A7). unfold ptrs in A3. injection A3 as P1 P2. split.
+  intros [Ti To] (A1 & A2 & A3 & A4 & A5 & A6 & A7 & A8). unfold ptrs in A3. injection A3 as P1 P2. split.
   - eapply TIin_frame; try eassumption. eapply txs_rel_weaken; [|exact A6]. intros t t' [H _]. exact H.
   - eapply TIout_frame; try eassumption. eapply txs_rel_weaken; [|exact A6]. intros t t' [_ H]. exact H.
 Qed.
@@ -1061,13 +1080,13 @@ Qed.
 
 Lemma RE_gfr os c c' : RE false os c -> gfr c c' -> c_fault c' = false -> CW c' -> RE false os c'.
 Proof.
-  intros [A1 A2 A3 A4 A5 A6 A7] G F [P Rd]. pose proof G as (G1 & G2 & G3 & G4 & G5 & G6 & G7).
+  intros [A1 A2 A3 A4 A5 A6 A7] G F [P Rd]. pose proof G as (G1 & G2 & G3 & G4 & G5 & G6 & G7 & G8).
   constructor; try assumption.
   - intros _. exact Rd.
   - eapply TI_gfr; eassumption.
   - unfold intx_ok. rewrite G1, (gfr_in_tx _ _ G). exact A5.
   - intros Q. discriminate.
-  - rewrite G7. exact A7.
+  - apply (os_keeps_step os _ c' A7); [exact G7|exact G2|exact G5|exact G8].
 Qed.
 Lemma RE_gfr_state os c c' s :
   RE false os c -> gfr (c <| c_in_state := s |>) c' -> c_fault c' = false -> CW c' ->
@@ -1076,13 +1095,13 @@ Lemma RE_gfr_state os c c' s :
   (s <> REQ_IDLE -> s <> REQ_IGNORE_DATA_AFTER_HTTP_0_9 -> c_in_tx c <> None) ->
   RE false os c'.
 Proof.
-  intros [A1 A2 A3 A4 A5 A6 A7] G F [P Rd] Ha Hu Hi. pose proof G as (G1 & G2 & G3 & G4 & G5 & G6 & G7).
+  intros [A1 A2 A3 A4 A5 A6 A7] G F [P Rd] Ha Hu Hi. pose proof G as (G1 & G2 & G3 & G4 & G5 & G6 & G7 & G8).
   constructor; try assumption.
   - intros _. exact Rd.
   - eapply TI_gfr; [|exact G]. apply TI_set_state; assumption.
   - unfold intx_ok. rewrite G1, (gfr_in_tx _ _ G). exact Hi.
   - intros Q. discriminate.
-  - rewrite G7. exact A7.
+  - apply (os_keeps_step os _ c' A7); [exact G7|exact G2|exact G5|exact G8].
 Qed.
 
 (* the same with parsed_uri established on the way *)
@@ -1093,7 +1112,7 @@ Lemma RE_gfr_state_u os c c' s :
   (s <> REQ_IDLE -> s <> REQ_IGNORE_DATA_AFTER_HTTP_0_9 -> c_in_tx c <> None) ->
   RE false os c'.
 Proof.
-  intros [A1 A2 A3 [[B1 B2 B3 B4] To] A5 A6 A7] G F [P Rd] Ha Hu Hi. pose proof G as (G1 & G2 & G3 & G4 & G5 & G6 & G7).
+  intros [A1 A2 A3 [[B1 B2 B3 B4] To] A5 A6 A7] G F [P Rd] Ha Hu Hi. pose proof G as (G1 & G2 & G3 & G4 & G5 & G6 & G7 & G8).
   unfold ptrs in G3. injection G3 as P1 P2. cbn in G1, G2, P1, P2, G7.
   assert (X : txs_rel tx_le c c') by exact G6.
   constructor; try assumption.
@@ -1108,15 +1127,15 @@ Proof.
     + eapply TIout_frame; [exact To|exact G2|exact P2|exact G5|]. eapply txs_rel_weaken; [|exact X]. intros t t' [_ E]. exact E.
   - unfold intx_ok. rewrite G1, P1. exact Hi.
   - intros Q. discriminate.
-  - rewrite G7. exact A7.
+  - apply (os_keeps_step os _ c' A7); [exact G7|exact G2|exact G5|exact G8].
 Qed.
 
 (* what a pass of a state function establishes *)
 Definition okrc (rc : st) : Prop := rc = ST_OK \/ rc = ST_DATA \/ rc = ST_DATA_BUFFER \/ rc = ST_DATA_OTHER.
-Definition RPost (gap : bool) (os : Z) (rc : st) (c' : connp) : Prop :=
+Definition RPost (gap : bool) (os : octx) (rc : st) (c' : connp) : Prop :=
   c_fault c' = false /\ (okrc rc -> RE gap os c') /\ (rc = ST_OK -> gap_head gap c') /\
   (rc = ST_DATA_BUFFER -> c_in_tx c' <> None).        (* a pass that asks for buffering has a current transaction *)
-Definition RI (gap : bool) (os : Z) (c : connp) : Prop := RE gap os c /\ gap_head gap c.
+Definition RI (gap : bool) (os : octx) (c : connp) : Prop := RE gap os c /\ gap_head gap c.
 Lemma RPost_of_RE os rc c' :
   RE false os c' -> (rc = ST_DATA_BUFFER -> c_in_state c' <> REQ_IDLE /\ c_in_state c' <> REQ_IGNORE_DATA_AFTER_HTTP_0_9) ->
   RPost false os rc c'.
@@ -1243,19 +1262,19 @@ Proof.
   assert (T : tiv c1 = tiv c /\ c_fault c1 = c_fault c /\ c_in c1 = c_in c) by (subst c1; destruct (0 <? _)%nat; repeat split; reflexivity).
   destruct T as (T1 & T2 & T3).
   assert (R : RE gap os (rq_set_in (fun k => k <| k_read ::= Nat.add (k_len (c_in c) - k_read (c_in c)) |> <| k_consume ::= Nat.add (k_len (c_in c) - k_read (c_in c)) |>) c1)).
-  { pose proof T1 as T1'. unfold tiv in T1'. injection T1' as H1 H2 H3 H4 H5 H6 H7 H8 H9. constructor.
+  { pose proof T1 as T1'. unfold tiv in T1'. injection T1' as H1 H2 H3 H4 H5 H6 H7 H8 H9 H10. constructor.
     - cbn. congruence.
     - exact S4.
     - intros G. specialize (A3 G). unfold rq_readable, rq_len in *. cbn. rewrite T3. exact A3.
-    - eapply TI_tiv; [|exact A4]. unfold tiv, hook_in, hook_out in *. cbn. congruence.
+    - eapply TI_tiv; [|exact A4]. rewrite <- T1. reflexivity.
     - unfold intx_ok. cbn. rewrite H1, H3. exact A5.
     - intros G U. exfalso. apply Na. unfold armed in *. cbn in U. rewrite T3 in U. exact U.
-    - cbn. rewrite H9. exact A7. }
+    - apply (os_keeps_step os c _ A7); [exact H9|exact H2|left; exact H6|exact (tiv_cur _ _ T1)]. }
   split; [exact (re_fault _ _ _ R)|split; [intros _; exact R|split; intros Q; discriminate]].
 Qed.
 
 Lemma gfr_set_in_state a b s : gfr a b -> gfr (a <| c_in_state := s |>) (b <| c_in_state := s |>).
-Proof. intros (A1 & A2 & A3 & A4 & A5 & A6 & A7). unfold gfr. repeat split; assumption. Qed.
+Proof. intros (A1 & A2 & A3 & A4 & A5 & A6 & A7 & A8). unfold gfr. repeat split; assumption. Qed.
 Lemma gfr_fault_nf a b : nf a b -> c_fault b = c_fault a. Proof. intros [H _]. exact H. Qed.
 
 Lemma rq_to_headers_ok c0 i :
@@ -1415,7 +1434,7 @@ Lemma RE_mk gap os c c' s :
   (s <> REQ_IDLE -> s <> REQ_IGNORE_DATA_AFTER_HTTP_0_9 -> c_in_tx c <> None) ->
   RE gap os c'.
 Proof.
-  intros [A1 A2 A3 [[B1 B2 B3 B4] To] A5 A6 A7] G F P Rd Gk Ha Hu Hi. pose proof G as (G1 & G2 & G3 & G4 & G5 & G6 & G7).
+  intros [A1 A2 A3 [[B1 B2 B3 B4] To] A5 A6 A7] G F P Rd Gk Ha Hu Hi. pose proof G as (G1 & G2 & G3 & G4 & G5 & G6 & G7 & G8).
   unfold ptrs in G3. injection G3 as P1 P2. cbn in G1, G2, P1, P2, G7.
   assert (X : txs_rel tx_le c c') by exact G6.
   constructor; try assumption.
@@ -1428,7 +1447,7 @@ Proof.
       * rewrite G1. exact Hu.
     + eapply TIout_frame; [exact To|exact G2|exact P2|exact G5|]. eapply txs_rel_weaken; [|exact X]. intros t t' [_ E]. exact E.
   - unfold intx_ok. rewrite G1, P1. exact Hi.
-  - rewrite G7. exact A7.
+  - apply (os_keeps_step os _ c' A7); [exact G7|exact G2|exact G5|exact G8].
 Qed.
 (* same state *)
 Lemma RE_mk_same gap os c c' :
@@ -1672,7 +1691,7 @@ Lemma RE_mk2 gap os c c' s :
   (s <> REQ_IDLE -> s <> REQ_IGNORE_DATA_AFTER_HTTP_0_9 -> c_in_tx c <> None) ->
   RE gap os c'.
 Proof.
-  intros [A1 A2 A3 [[B1 B2 B3 B4] To] A5 A6 A7] G F P Rd Gk Ha Hu Hi. pose proof G as (G1 & G2 & G3 & G4 & G5 & G6 & G7).
+  intros [A1 A2 A3 [[B1 B2 B3 B4] To] A5 A6 A7] G F P Rd Gk Ha Hu Hi. pose proof G as (G1 & G2 & G3 & G4 & G5 & G6 & G7 & G8).
   unfold ptrs in G3. injection G3 as P1 P2. cbn in G1, G2, P1, P2, G7.
   assert (X : txs_rel tx_le c c') by exact G6.
   constructor; try assumption.
@@ -1685,7 +1704,7 @@ Proof.
       * rewrite G1. exact Hu.
     + eapply TIout_frame; [exact To|exact G2|exact P2|exact G5|]. eapply txs_rel_weaken; [|exact X]. intros t t' [_ E]. exact E.
   - unfold intx_ok. rewrite G1, P1. exact Hi.
-  - rewrite G7. exact A7.
+  - apply (os_keeps_step os _ c' A7); [exact G7|exact G2|exact G5|exact G8].
 Qed.
 
 (* a step that keeps the fault flag and the TI frame *)
@@ -1751,7 +1770,7 @@ Proof.
     + intros _ _. exact N.
 Qed.
 
-Definition REs (os : Z) (c c' : connp) : Prop := RE false os c' /\ c_in_state c' = c_in_state c.
+Definition REs (os : octx) (c c' : connp) : Prop := RE false os c' /\ c_in_state c' = c_in_state c.
 Lemma REs_trans os a b c : REs os a b -> REs os b c -> REs os a c.
 Proof. intros [A1 A2] [B1 B2]. split; [exact B1|congruence]. Qed.
 Lemma RE_in_some os c : RE false os c -> c_in_state c = REQ_HEADERS -> exists i, c_in_tx c = Some i /\ live c i.
@@ -1860,7 +1879,7 @@ Proof.
   rewrite E in *. cbn [fst snd] in *.
   split; [exact F'|]. split.
   - intros Ok. pose proof (hookrc_not_ok _ Hrc Ok) as ->. destruct (Hok eq_refl) as (I1 & I2 & I3).
-    destruct St as (T1 & T2 & T3 & T4 & T5). destruct Fx as (Sk & _).
+    destruct St as (T1 & T2 & T3 & T4 & T5). destruct Fx as (Sk & _ & HoX & _).
     constructor.
     + exact F'.
     + exact T4.
@@ -1870,7 +1889,7 @@ Proof.
       * intros _. exact I.
     + intros Q1 Q2. destruct I3; contradiction.
     + intros _ U. unfold armed, hook_in in *. congruence.
-    + apply skel_out_status in Sk. cbn in Sk. rewrite Sk. exact A7.
+    + apply (os_keeps_step os c c' A7); [(apply skel_out_status in Sk; exact Sk)|exact (nost_out_state _ _ Sk)|exact HoX|exact (nost_cur_out _ _ Sk)].
   - split.
     + intros -> _ Q. destruct (Hok eq_refl) as (_ & _ & [I3|I3]); destruct Q as [Q|Q]; rewrite I3 in Q; discriminate.
     + intros ->. exfalso. destruct Hrc as [Q|[Q|Q]]; discriminate.
@@ -1931,7 +1950,7 @@ Proof.
   split; [exact F'|]. split; [|split; [intros _ Q; discriminate|intros ->; exfalso; destruct Hrc as [Q|[Q|Q]]; discriminate]].
   intros Ok.
   pose proof (hookrc_not_ok _ Hrc Ok) as ->. specialize (Hok eq_refl). pose proof (fr_gfr _ _ Hok) as G.
-  destruct G as (G1 & G2 & G3 & G4 & G5 & G6 & G7). unfold ptrs in G3. injection G3 as P1 P2. cbn in G1, G2, P1, P2, G7.
+  destruct G as (G1 & G2 & G3 & G4 & G5 & G6 & G7 & G8). unfold ptrs in G3. injection G3 as P1 P2. cbn in G1, G2, P1, P2, G7.
   assert (Hk : hook_in c1 = hook_in c) by (unfold hook_in; rewrite F6; reflexivity).
   constructor.
   - exact F'.
@@ -1947,7 +1966,7 @@ Proof.
     + eapply TIout_frame; [exact (tx_create_TIout c i c1 Ec To)|exact G2|exact P2|exact G5|]. eapply txs_rel_weaken; [|exact G6]. intros t t' [_ Q]. exact Q.
   - unfold intx_ok. rewrite P1, F2. intros _ _. discriminate.
   - intros Q. discriminate.
-  - rewrite G7, F8. exact A7.
+  - apply (os_keeps_step os c c' A7); [rewrite G7; exact F8|rewrite G2; exact F5|unfold hook_out in *; cbn in G5; rewrite F7 in G5; exact G5|rewrite G8; cbn; rewrite F7; reflexivity].
 Qed.
 
 (* for (;;) { IN_PEEK_NEXT; if (stop) break; IN_COPY_BYTE_OR_RETURN; } *)
@@ -1971,7 +1990,7 @@ Lemma RE_set_tunnel os c : RE false os c ->
 Proof.
   intros [A1 A2 A3 [[B1 B2 B3 B4] [C1 C2 C3]] A5 A6 A7]. constructor; try assumption.
   - split; constructor; assumption.
-  - right. reflexivity.
+  - destruct A7 as (Q1 & Q2 & Q3). split; [right; reflexivity|split; assumption].
 Qed.
 
 (* htp_connp_REQ_CONNECT_PROBE_DATA *)
@@ -2152,7 +2171,7 @@ Qed.
 (* the request stream has not been stopped *)
 Definition in_sok (c : connp) : Prop := c_in_status c <> c_HTP_STREAM_STOP /\ c_in_status c <> c_HTP_STREAM_ERROR.
 (* what a finished htp_connp_req_data leaves *)
-Definition RFinal (gap : bool) (os : Z) (c' : connp) : Prop := c_fault c' = false /\ (in_sok c' -> RE gap os c').
+Definition RFinal (gap : bool) (os : octx) (c' : connp) : Prop := c_fault c' = false /\ (in_sok c' -> RE gap os c').
 
 Lemma RE_set_in_status gap os c v : RE gap os c -> RE gap os (c <| c_in_status := v |>).
 Proof. intros [A1 A2 A3 [[B1 B2 B3 B4] [C1 C2 C3]] A5 A6 A7]. constructor; try assumption. split; constructor; assumption. Qed.
@@ -2178,7 +2197,7 @@ Proof.
   - intros Q. pose proof (re_readable _ _ _ H Q) as Rd. destruct M as (P & _). unfold rq_pos in P. injection P as P1 P2 P3 P4 P5.
     unfold rq_readable, rq_len in *. rewrite P5, P1. exact Rd.
   - pose proof (re_gap _ _ _ H) as Gk. unfold gap_ok, armed in *. intros Q U. destruct M as (P & _). unfold rq_pos in P. injection P as P1 P2 P3 P4 P5.
-    rewrite P2. apply (Gk Q). destruct N as [_ T]. unfold tiv, hook_in in T. injection T as T1 T2 T3 T4 T5 T6 T7 T8 T9. congruence.
+    rewrite P2. apply (Gk Q). destruct N as [_ T]. unfold tiv, hook_in in T. injection T as T1 T2 T3 T4 T5 T6 T7 T8 T9 T10. congruence.
 Qed.
 
 (* the exit of a pass *)
@@ -2295,23 +2314,34 @@ Definition out_status_after_req (os os' : Z) : Prop :=
 Lemma safe_inv_of_RE gap os c : RE gap os c -> safe_inv c.
 Proof. intros [A1 A2 A3 A4 A5 A6 A7]. constructor; [exact A1|exact A4|exact (proj2 A2)]. Qed.
 
+(* what a request call leaves of the response direction *)
+Definition out_kept (c c' : connp) : Prop :=
+  out_status_after_req (c_out_status c) (c_out_status c') /\ c_out_state c' = c_out_state c /\ hk_le (hook_out c) (hook_out c') /\
+  cur_core (c_out c') = cur_core (c_out c).
+
 Theorem connp_req_data_safe data len c c' code :
   safe_inv c -> (forall d, data = Some d -> (len <= length d)%nat) ->
   connp_req_data cb g data len c = (c', code) ->
   req_data_oof data len c = false ->
-  c_fault c' = false /\ (in_sok c' -> safe_inv c' /\ out_status_after_req (c_out_status c) (c_out_status c')).
+  c_fault c' = false /\
+  (in_sok c' -> safe_inv c' /\ out_kept c c' /\
+               (* htp_connp_req_close / htp_connp_close: the NULL chunk of length 0 leaves the read offset at 0 *)
+               (len = O -> c_in_status c = c_HTP_STREAM_CLOSED -> k_read (c_in c') = O)).
 Proof.
-  intros [F T Ri] Hd E O. unfold connp_req_data in E. unfold req_data_oof in O.
-  assert (Id : forall cx, cx = c -> c_fault cx = false /\ (in_sok cx -> safe_inv cx /\ out_status_after_req (c_out_status c) (c_out_status cx))).
-  { intros cx ->. split; [exact F|intros _; split; [constructor; assumption|left; reflexivity]]. }
-  destruct (c_in_status c =? c_HTP_STREAM_STOP); [injection E as <- <-; apply Id; reflexivity|].
-  destruct (c_in_status c =? c_HTP_STREAM_ERROR); [injection E as <- <-; apply Id; reflexivity|].
+  intros [F T Ri] Hd E Oo. unfold connp_req_data in E. unfold req_data_oof in Oo.
+  assert (Kid : out_kept c c) by (split; [left; reflexivity|split; [reflexivity|split; [apply hk_le_refl|reflexivity]]]).
+  assert (Id : forall cx, cx = c -> c_in_status c <> c_HTP_STREAM_CLOSED \/ len <> O ->
+               c_fault cx = false /\ (in_sok cx -> safe_inv cx /\ out_kept c cx /\ (len = O -> c_in_status c = c_HTP_STREAM_CLOSED -> k_read (c_in cx) = O))).
+  { intros cx -> Hn. split; [exact F|intros _; split; [constructor; assumption|split; [exact Kid|]]]. intros L0 Cl. destruct Hn; contradiction. }
+  destruct (c_in_status c =? c_HTP_STREAM_STOP) eqn:E1; [injection E as <- <-; apply Id; [reflexivity|left; apply Z.eqb_eq in E1; rewrite E1; vm_compute; discriminate]|].
+  destruct (c_in_status c =? c_HTP_STREAM_ERROR) eqn:E2; [injection E as <- <-; apply Id; [reflexivity|left; apply Z.eqb_eq in E2; rewrite E2; vm_compute; discriminate]|].
   destruct (match c_in_tx c with None => negb (req_state_eqb (c_in_state c) REQ_IDLE) | Some _ => false end) eqn:Eg.
   { injection E as <- <-. split; [exact F|intros [_ Q]; cbn in Q; contradiction]. }
-  destruct ((len =? 0)%nat && negb (c_in_status c =? c_HTP_STREAM_CLOSED)); [injection E as <- <-; apply Id; reflexivity|].
+  destruct ((len =? 0)%nat && negb (c_in_status c =? c_HTP_STREAM_CLOSED)) eqn:E0.
+  { injection E as <- <-. apply Id; [reflexivity|left]. apply andb_prop in E0. destruct E0 as [_ Q]. apply negb_true_iff in Q. apply Z.eqb_neq in Q. exact Q. }
   set (c1 := (rq_set_in _ c) <| c_in_chunk_count ::= S |> <| c_in_data_counter ::= Z.add (Z.of_nat len) |>) in *.
   set (gap := match data with None => (0 <? len)%nat | Some _ => false end) in *.
-  assert (Base : forall v, RI gap v (c1 <| c_out_status := v |>)).
+  assert (Base : forall v, RI gap (v, c_out_state c, hook_out c, cur_core (c_out c)) (c1 <| c_out_status := v |>)).
   { intros v. destruct T as [[B1 B2 B3 B4] [C1 C2 C3]]. split; [|intros _ _; reflexivity]. constructor.
     - exact F.
     - unfold rq_pre, rq_wf, rq_inv, rq_len, rq_rd, rq_cs. cbn. repeat split; try lia; [|exact Ri].
@@ -2320,19 +2350,26 @@ Proof.
     - split; constructor; assumption.
     - intros N1 N2. cbn in *. destruct (c_in_tx c); [discriminate|]. destruct (c_in_state c); try discriminate Eg; contradiction.
     - intros _ _. reflexivity.
-    - left. reflexivity. }
+    - split; [left; reflexivity|split; [reflexivity|split; [apply hk_le_refl|reflexivity]]]. }
   assert (Eqv : c1 = c1 <| c_out_status := c_out_status c |>) by (subst c1; destruct c; reflexivity).
-  destruct (c_in_status c1 =? c_HTP_STREAM_TUNNEL).
-  { injection E as <- <-. split; [exact F|intros _; split; [|left; reflexivity]]. rewrite Eqv. exact (safe_inv_of_RE _ _ _ (proj1 (Base _))). }
+  destruct (c_in_status c1 =? c_HTP_STREAM_TUNNEL) eqn:Et.
+  { injection E as <- <-. split; [exact F|intros _; split; [|split; [exact Kid|]]]; [rewrite Eqv; exact (safe_inv_of_RE _ _ _ (proj1 (Base _)))|].
+    intros _ Cl. apply Z.eqb_eq in Et. change (c_in_status c1) with (c_in_status c) in Et. rewrite Cl in Et. vm_compute in Et. discriminate. }
   set (c2 := if c_out_status c1 =? c_HTP_STREAM_DATA_OTHER then _ else c1) in *.
-  assert (H2 : exists v, RI gap v c2 /\ (v = c_out_status c \/ (c_out_status c = c_HTP_STREAM_DATA_OTHER /\ v = c_HTP_STREAM_DATA))).
+  assert (H2 : exists v, RI gap (v, c_out_state c, hook_out c, cur_core (c_out c)) c2 /\ (v = c_out_status c \/ (c_out_status c = c_HTP_STREAM_DATA_OTHER /\ v = c_HTP_STREAM_DATA))).
   { subst c2. destruct (c_out_status c1 =? c_HTP_STREAM_DATA_OTHER) eqn:Eo.
     - exists c_HTP_STREAM_DATA. split; [apply Base|right; split; [|reflexivity]]. apply Z.eqb_eq in Eo. exact Eo.
     - exists (c_out_status c). split; [rewrite Eqv; apply Base|left; reflexivity]. }
   destruct H2 as (v & HI & Hv).
-  destruct (rq_loop_safe gap v _ c2 c' code HI E O) as [F' Hre].
-  split; [exact F'|]. intros Sk. pose proof (Hre Sk) as R. split; [exact (safe_inv_of_RE _ _ _ R)|].
-  unfold out_status_after_req. destruct (re_os _ _ _ R) as [Q|Q]; rewrite Q; [|tauto]. destruct Hv as [->|[Hv ->]]; tauto.
+  destruct (rq_loop_safe gap _ _ c2 c' code HI E Oo) as [F' Hre].
+  split; [exact F'|]. intros Sk. pose proof (Hre Sk) as R. split; [exact (safe_inv_of_RE _ _ _ R)|]. split.
+  - destruct (re_os _ _ _ R) as (Q1 & Q2 & Q3 & Q4). cbn [fst snd] in Q1, Q2, Q3, Q4. split; [|split; [exact Q2|split; assumption]].
+    unfold out_status_after_req. destruct Q1 as [Q|Q]; rewrite Q; [|tauto]. destruct Hv as [->|[Hv ->]]; tauto.
+  - intros L0 _. destruct HI as [HE _].
+    assert (Hinv : rq_loop_inv gap c2) by (split; [exact (re_pre _ _ _ HE)|exact (re_readable _ _ _ HE)]).
+    destruct (rq_loop_spec cb g _ _ c2 c' code Hinv E) as (_ & Ln & _).
+    assert (L2 : rq_len c2 = len) by (subst c2; destruct (c_out_status c1 =? c_HTP_STREAM_DATA_OTHER); reflexivity).
+    destruct (re_pre _ _ _ R) as [(W1 & _) _]. unfold rq_len, rq_rd in *. lia.
 Qed.
 End Loop.
 
